@@ -25,6 +25,7 @@ func init() {
 			"X9 the static fork enumeration never stores through the *ForkSourcePart it was handed (shared placeholder). " +
 			"X10 in SplitExp.BindingPath the arm for a value that narrowed to null does not return the un-narrowed Value. " +
 			"X11 getUnknownLength returns only constants, len(..) or reflect Len; X6 (corrected in round 10) the private copy of a shared fork-id part is taken whenever the node has more than one fork. " +
+			"X12 a constant index into ForkIdSet.List is guarded by its length; X13 the resolvers store SplitExp.Type for partly disabled outputs; X14 every return of CallGraphStage.resolve has passed isAlwaysDisabled(). " +
 			"NOT decided: one fork per element/key (run-time counts), liveness (no job skipped).",
 		Assumptions: commonAssumptions,
 	}
@@ -42,6 +43,9 @@ func runC03(c *an.Ctx) {
 	ruleX9(c)
 	ruleX10(c)
 	ruleX11(c)
+	ruleX12(c)
+	ruleX13(c)
+	ruleX14(c)
 }
 
 // ---------------------------------------------------------------------------
